@@ -16,10 +16,10 @@ ID = "C17"
 LEVEL = "exploration"
 RULE = (
     "case = batch of JSON values; each value is encoded by 4 worker processes (validation backend Pydantic/fallback x JSON backend orjson/stdlib, selected at import "
-    "time) through fast_json.dumps (default and compact separators) and the model_dump_json path (request params / response result), and every distinct encoding is decoded "
+    "time) through fast_json.dumps (default, compact separators, indent=None, after a pretty-printing call) and the model_dump_json path (request params / response result), and every distinct encoding is decoded "
     "by every worker through fast_json.loads; oracle: decode(encode(v)) equals v type-strictly (float bit pattern, int exactness) for every (encoder, decoder) pair and no "
     "encoding contains a raw LF/CR; values: bounded-exhaustive grammar (depth<=3, reduced alphabets at depth) over a leaf alphabet with 64-bit boundaries, -0.0, 1e308, "
-    "denormals, every C0 control, U+0085/2028/2029, BMP boundary and astral characters, non-ASCII keys, plus Hypothesis recursive values; non-trivial = value contains an int "
+    "denormals, every C0 control, U+0085/2028/2029, BMP boundary and astral characters, non-ASCII keys, plus Hypothesis recursive values and seeded deep values (100..300 levels, around orjson's 254-level limit); non-trivial = value contains an int "
     "beyond 2^53, a non-integral float, a control/line-separator/non-ASCII character or null; distinct = distinct value"
 )
 ASSUMPTIONS = [
@@ -45,12 +45,43 @@ def wname(w: Worker) -> str:
     return ("fallback" if w.fallback else "pydantic") + "+" + ("orjson" if w.orjson_on else "stdlib")
 
 
-PATHS = ["dumps", "dumps_compact", "dumps_after_pretty", "model_request", "model_response"]
+PATHS = ["dumps", "dumps_compact", "dumps_indent_none", "dumps_after_pretty", "model_request", "model_response"]
+
+
+def depth_of(v: Any) -> int:
+    """nesting depth, iteratively (values may be nested beyond the interpreter's recursion comfort)"""
+    d, stack = 0, [(v, 0)]
+    while stack:
+        x, k = stack.pop()
+        if isinstance(x, dict):
+            d = max(d, k + 1)
+            stack.extend((y, k + 1) for y in x.values())
+        elif isinstance(x, list):
+            d = max(d, k + 1)
+            stack.extend((y, k + 1) for y in x)
+    return d
+
+
+def deep_value(n: int, kind: str, leaf: Any) -> Any:
+    v = leaf
+    for i in range(n):
+        if kind == "list" or (kind == "alt" and i % 2):
+            v = [v]
+        else:
+            v = {"k": v}
+    return v
+
+
+def expand_deep(v: Any) -> Any:
+    if isinstance(v, dict) and set(v) == {"$deep"}:
+        return deep_value(*v["$deep"])
+    return v
 
 
 def check(case: Dict[str, Any]) -> Outcome:
     out = Outcome()
-    values: List[Any] = case["values"]
+    values: List[Any] = [expand_deep(v) for v in case["values"]]
+    deep = [depth_of(v) >= 250 for v in values]
     ws = workers()
     enc = [w.request({"op": "json_encode", "values": values}) for w in ws]
     # collect distinct texts
@@ -77,6 +108,8 @@ def check(case: Dict[str, Any]) -> Outcome:
         for wi, w in enumerate(ws):
             for p in PATHS:
                 t = enc[wi][vi][p]
+                if not isinstance(t, str) and deep[vi] and p.startswith("model_") and not w.fallback:
+                    continue  # Pydantic's own serialiser refuses nesting beyond 255 levels; that is not the JSON backend's doing
                 if not isinstance(t, str):
                     out.fail(f"encode-failed:{p}:{'orjson' if w.orjson_on else 'stdlib'}", f"{wname(w)} {p}: {t!r} for value {v!r}")
                     continue
@@ -121,7 +154,7 @@ def record_batch(col: Collector, values: List[Any]) -> None:
             col.nontrivial.add(digest(v))
     if o.failures:
         # re-run failing values one by one to keep replays minimal
-        for v in values:
+        for v in case["values"]:
             o1 = check({"values": [v]})
             if o1.failures:
                 o1.nontrivial = False
@@ -224,14 +257,38 @@ def job_hyp(col: Collector, seed: int, tier: str, shard: int, n: int) -> None:
     hyp_run(col, seed * 1000 + shard, cases(), chk, n)
 
 
-JOBS = {"grammar": job_grammar, "hyp": job_hyp}
+def job_deep(col: Collector, seed: int, tier: str) -> None:
+    """seeded deep values around the fast backend's nesting limit (orjson refuses more than 254 levels and the
+    library re-encodes with the stdlib): depth x container kind x leaf."""
+    vals = [{"$deep": [n, kind, leaf]} for n in (100, 252, 253, 254, 255, 256, 300) for kind in ("list", "dict", "alt") for leaf in ("x", None, 2**63, "\u2028\n")]
+    for i in range(0, len(vals), 12):
+        case = {"values": vals[i : i + 12]}
+        o = check(case)
+        col.evaluations += len(case["values"]) - 1
+        from ..runner import digest
+
+        for v in case["values"]:
+            col.nontrivial.add(digest(v))
+        if o.failures:
+            for v in case["values"]:
+                o1 = check({"values": [v]})
+                if o1.failures:
+                    col.record({"values": [v]}, o1)
+        else:
+            o.nontrivial = False
+            o.classes = ("deep-values",)
+            col.record(case, o)
+    col.exhaustive_parts.append("deep values: depth {100,252..256,300} x {list, dict, alternating} x 4 leaves through every encoder path")
+
+
+JOBS = {"grammar": job_grammar, "hyp": job_hyp, "deep": job_deep}
 SERIAL = False
 
 
 def jobs(tier: str):
     if tier == "quick":
-        return [("grammar", {"shard": s, "nshards": 3, "stride": 8}) for s in range(3)] + [("hyp", {"shard": 0, "n": 150})]
-    return [("grammar", {"shard": s, "nshards": 3, "stride": 1}) for s in range(3)] + [("hyp", {"shard": 0, "n": 6000})]
+        return [("grammar", {"shard": s, "nshards": 3, "stride": 8}) for s in range(3)] + [("hyp", {"shard": 0, "n": 150}), ("deep", {})]
+    return [("grammar", {"shard": s, "nshards": 3, "stride": 1}) for s in range(3)] + [("hyp", {"shard": 0, "n": 6000}), ("deep", {})]
 
 
 def shrink(signature: str, seed: int):
